@@ -270,6 +270,7 @@ type c04Case struct {
 	Spec   *CfgSpec       `json:"spec,omitempty"`
 	Config map[string]any `json:"config,omitempty"`
 	Entry  string         `json:"entry"`
+	Note   string         `json:"note,omitempty"` // "first-call...": witnessed as the first library call of a fresh process
 }
 
 func cfgFromJSON(m map[string]any) cors.Config {
@@ -416,6 +417,12 @@ func TestVerif_C04(t *testing.T) {
 	var rc c04Case
 	if r.LoadReplay(nil, &rc) {
 		l := r.newLocal(0)
+		if rc.Spec != nil && strings.HasPrefix(rc.Note, "first-call") {
+			cs := c05Case{rc.Spec, rc.Entry, rc.Note}
+			if key, monitor, msg, ok := runInFreshProcess(cs); ok && (key == "invalid-accepted" || key == "non-nil-middleware-with-error") {
+				r.Violate(key, monitor, "as the first library call of a fresh process: "+msg, cs)
+			}
+		}
 		if rc.Spec != nil {
 			c04RunSpec(r, l, rc.Spec, rc.Entry)
 		} else {
@@ -448,6 +455,17 @@ func TestVerif_C04(t *testing.T) {
 		for _, entry := range entries {
 			mk := func() *CfgSpec {
 				return &CfgSpec{Cred: s.cred, PNA: s.pna, TolInsecure: s.tolI, TolPSL: s.tolP, Origins: []OAtom{secureOriginAtoms[0]}}
+			}
+			// no origin pattern at all: nil and empty non-nil lists, alone and with other fields filled in
+			for _, nonNil := range []bool{false, true} {
+				c := mk()
+				c.Origins, c.NonNilEmpty = nil, nonNil
+				c04RunSpec(r, l, c, entry)
+				l.NontrivialKey(specKey(c), entry, fmt.Sprint(nonNil))
+				c = mk()
+				c.Origins, c.NonNilEmpty = nil, nonNil
+				c.Methods, c.ReqHdrs, c.MaxAge = []MAtom{validMethodAtoms[0]}, []HAtom{validReqHdrAtoms[0]}, 600
+				c04RunSpec(r, l, c, entry)
 			}
 			relPool := allValidKindOriginAtoms()
 			if s.tolP {
@@ -506,6 +524,9 @@ func TestVerif_C04(t *testing.T) {
 		}
 	})
 	r.Exhaustive("every conditional/invalid atom of every table in 4-6 list shapes x Credentialed x 4 PNA settings x 2 tolerate flags x 5 entry points")
+
+	// ---- every atom alone as the FIRST library call of a fresh process (see c05.go)
+	freshProcessSweep(r, "C04")
 
 	// ---- (a2) integers: exhaustive windows around every bound
 	r.Parallel(1, func(l *Local) {
